@@ -341,17 +341,37 @@ def check_sequences(run):
         mods = [base_module(f"nv_seq_{i}") for i in range(3)]
         bad = base_module("nv_seq_bad")
         del bad.model_name
+        # malformed modules carrying the key of a valid one (an edited copy
+        # of a model that is already registered)
+        bad0 = base_module("nv_seq_0")
+        del bad0.model_doc
+        bad1 = base_module("nv_seq_1")
+        bad1.parameter_names = bad1.parameter_names[:-1]
         start = dict(model.models_available)
         ops, outs = [], []
         for _ in range(run.rng.randint(2, 8)):
             r = run.rng.random()
             if r < 0.5:
-                m = run.rng.choice(mods + [bad])
+                m = run.rng.choice(mods + [bad, bad0, bad1])
+                before = dict(model.models_available)
                 try:
                     model.register_model(m)
                     outs.append("None")
                 except BaseException as e:
                     outs.append(f"(Some {m1.exn_coq(type(e).__name__)})")
+                    after = dict(model.models_available)
+                    if list(after) != list(before) or any(
+                            after[k] is not before[k] for k in before):
+                        run.failing(
+                            SITE_R, f"rejected-registration-changes-registry:"
+                            f"{m.model_key}",
+                            f"register_model of a malformed module with key "
+                            f"{m.model_key!r} raised {type(e).__name__} but "
+                            f"changed the registry: removed "
+                            f"{sorted(set(before) - set(after))}, added "
+                            f"{sorted(set(after) - set(before))}",
+                            payload={"kind": "sequence"},
+                            theorem="C18_failure_preserves")
                 ops.append(f"Register {coq_mod(m)}")
             else:
                 m = run.rng.choice(mods)
